@@ -91,6 +91,33 @@ func (n *RaftNode) loadState() error {
 	return nil
 }
 
+// reconcileStateWithLog forgets the log index of the last applied entry when it
+// cannot refer to this node's Raft log. An applied entry is always covered by
+// the log or by a snapshot, so a greater index means that the store was
+// restored from a backup, which was taken on another log (see cmd/restore.go).
+// Keeping it would make shouldApply reject the first entries of the new log as
+// already applied. The balloon version is kept: it describes the store.
+func (n *RaftNode) reconcileStateWithLog() error {
+	last, err := n.raftLog.LastIndex()
+	if err != nil {
+		return err
+	}
+	metas, err := n.snapshots.List()
+	if err != nil {
+		return err
+	}
+	for _, m := range metas {
+		if m.Index > last {
+			last = m.Index
+		}
+	}
+	if n.state.Index > last {
+		n.log.Infof("Last applied index %d is beyond the Raft log (%d): assuming a restored backup", n.state.Index, last)
+		n.state = &fsmState{Index: 0, BalloonVersion: n.state.BalloonVersion}
+	}
+	return nil
+}
+
 /*
 	RaftBalloon API implements the Ballon API in the RAFT system
 */
